@@ -120,6 +120,89 @@ site('g_round_gate','(b_round round : N) : bool',core,'core.rs','process_block',
 site('g_quorum_consensus','(total : N) : N',cfg,'consensus/config.rs','quorum_threshold',r';\s*([^;]*?)\s*$',{'total_votes':'total'},default='(((2 * total) / 3) + 1)')
 site('g_quorum_mempool','(total : N) : N',mcfg,'mempool/config.rs','quorum_threshold',r';\s*([^;]*?)\s*$',{'total_votes':'total'},default='(((2 * total) / 3) + 1)')
 
+
+# ---- impl-scoped sites (messages.rs has several `fn verify`) ----
+def impl_body(src, ty):
+    m = re.search(r'\bimpl\s+%s\s*\{' % re.escape(ty), src)
+    if not m: return None, 0
+    i = m.end() - 1; depth, j = 0, i
+    while j < len(src):
+        ch = src[j]
+        if ch == '{': depth += 1
+        elif ch == '}':
+            depth -= 1
+            if depth == 0: return src[i+1:j], src[:i].count('\n') + 1
+        j += 1
+    return None, 0
+def isite(name, params, srcfile, fname, ty, fn, pattern, env, default, pre=None, nth=0):
+    """site inside `impl ty { fn fn(...) {...} }`; nth selects among several matches of the pattern"""
+    global WRAP
+    WRAP = None
+    src = srcfile
+    ib, iline = impl_body(src, ty)
+    body, line = fn_body(ib, fn) if ib else (None, 0)
+    ms = list(re.finditer(pattern, body, re.S)) if body else []
+    text = ms[nth].group(1).strip() if len(ms) > nth else None
+    try:
+        if text is None: raise ValueError("site not found")
+        g = tr(pre(text) if pre else text, env)
+        defs.append("(* %s: impl %s, fn %s (line %d): `%s` *)\nDefinition %s %s := %s." % (fname, ty, fn, iline + line - 1, text, name, params, g))
+        sites.append({'name': name, 'file': fname, 'fn': '%s::%s' % (ty, fn), 'line': iline + line - 1, 'rust': text, 'coq': g, 'changed': g != default})
+    except Exception as e:
+        untied.append((name, str(e)))
+        defs.append("(* UNTIED %s: %s *)\nDefinition %s %s := %s." % (name, e, name, params, default))
+        sites.append({'name': name, 'file': fname, 'fn': '%s::%s' % (ty, fn), 'line': iline + line - 1, 'rust': text, 'coq': default, 'untied': str(e)})
+msgs = strip_comments(open(REPO + '/consensus/src/messages.rs').read())
+aggr = strip_comments(open(REPO + '/consensus/src/aggregator.rs').read())
+lead = strip_comments(open(REPO + '/consensus/src/leader.rs').read())
+qwsrc = strip_comments(open(REPO + '/mempool/src/quorum_waiter.rs').read())
+bmsrc = strip_comments(open(REPO + '/mempool/src/batch_maker.rs').read())
+ENS = r'ensure!\(\s*([^,]*?)\s*,'
+isite('g_block_stake', '(s : N) : bool', msgs, 'messages.rs', 'Block', 'verify', ENS, {'voting_rights': 's'}, '(0 <? s)')
+isite('g_vote_stake', '(s : N) : bool', msgs, 'messages.rs', 'Vote', 'verify', ENS, {'STAKE': 's'}, '(0 <? s)', pre=lambda t: re.sub(r'committee\.stake\(&self\.author\)', 'STAKE', t))
+isite('g_timeout_stake', '(s : N) : bool', msgs, 'messages.rs', 'Timeout', 'verify', ENS, {'STAKE': 's'}, '(0 <? s)', pre=lambda t: re.sub(r'committee\.stake\(&self\.author\)', 'STAKE', t))
+isite('g_qc_entry_stake', '(s : N) : bool', msgs, 'messages.rs', 'QC', 'verify', ENS, {'voting_rights': 's'}, '(0 <? s)', nth=1)
+isite('g_qc_weight', '(weight quorum : N) : bool', msgs, 'messages.rs', 'QC', 'verify', ENS, {'weight': 'weight', 'QUORUM': 'quorum'}, '(quorum <=? weight)', pre=lambda t: t.replace('committee.quorum_threshold()', 'QUORUM'), nth=2)
+isite('g_tc_entry_stake', '(s : N) : bool', msgs, 'messages.rs', 'TC', 'verify', ENS, {'voting_rights': 's'}, '(0 <? s)', nth=1)
+isite('g_tc_weight', '(weight quorum : N) : bool', msgs, 'messages.rs', 'TC', 'verify', ENS, {'weight': 'weight', 'QUORUM': 'quorum'}, '(quorum <=? weight)', pre=lambda t: t.replace('committee.quorum_threshold()', 'QUORUM'), nth=2)
+QT = lambda t: t.replace('committee.quorum_threshold()', 'QUORUM').replace('self.committee.QUORUM', 'QUORUM')
+isite('g_qcm_threshold', '(weight quorum : N) : bool', aggr, 'aggregator.rs', 'QCMaker', 'append', r'if\s+(self\.weight[^{]*?)\s*\{', {'self.weight': 'weight', 'QUORUM': 'quorum'}, '(quorum <=? weight)', pre=QT)
+isite('g_qcm_reset', ': N', aggr, 'aggregator.rs', 'QCMaker', 'append', r'self\.weight\s*=\s*([^;]*?);', {}, '0')
+isite('g_tcm_threshold', '(weight quorum : N) : bool', aggr, 'aggregator.rs', 'TCMaker', 'append', r'if\s+(self\.weight[^{]*?)\s*\{', {'self.weight': 'weight', 'QUORUM': 'quorum'}, '(quorum <=? weight)', pre=QT)
+isite('g_tcm_reset', ': N', aggr, 'aggregator.rs', 'TCMaker', 'append', r'self\.weight\s*=\s*([^;]*?);', {}, '0')
+isite('g_leader_index', '(round size : N) : N', lead, 'leader.rs', 'RRLeaderElector', 'get_leader', r'keys\[\s*(.*?)\s*\]', {'round': 'round', 'SIZE': 'size'}, '(round mod size)', pre=lambda t: t.replace(' as usize', '').replace('self.committee.size()', 'SIZE'))
+isite('g_qw_threshold', '(total quorum : N) : bool', qwsrc, 'quorum_waiter.rs', 'QuorumWaiter', 'run', r'if\s+(total_stake[^{]*?)\s*\{', {'total_stake': 'total', 'QUORUM': 'quorum'}, '(quorum <=? total)', pre=lambda t: t.replace('self.committee.quorum_threshold()', 'QUORUM'))
+isite('g_batch_full', '(size batch_size : N) : bool', bmsrc, 'batch_maker.rs', 'BatchMaker', 'run', r'if\s+(self\.current_batch_size[^{]*?)\s*\{', {'self.current_batch_size': 'size', 'self.batch_size': 'batch_size'}, '(batch_size <=? size)')
+isite('g_timer_seals', '(is_empty : bool) : bool', bmsrc, 'batch_maker.rs', 'BatchMaker', 'run', r'=>\s*\{\s*if\s+(!?self\.current_batch\.is_empty\(\))\s*\{', {'EMPTY': 'is_empty'}, '(negb is_empty)', pre=lambda t: t.replace('self.current_batch.is_empty()', 'EMPTY'))
+# seal(): is the length test evaluated before the index `tx[0]` (benchmark build)? `a && b` evaluates a first
+_sb, _sl = fn_body(bmsrc, 'seal')
+_mf = re.search(r'\.filter\(\|tx\|\s*(.*?)\)\s*\.filter_map', _sb or '', re.S)
+if _mf:
+    t = _mf.group(1)
+    guarded = 'true' if (('tx.len()' in t) and ('tx[0]' in t) and t.index('tx.len()') < t.index('tx[0]')) or ('tx[0]' not in t) else 'false'
+    defs.append("(* batch_maker.rs: fn seal (line %d), benchmark build: `%s`: is the length test evaluated before the index? *)\nDefinition g_seal_index_guarded : bool := %s." % (_sl, ' '.join(t.split()), guarded))
+    sites.append({'name': 'g_seal_index_guarded', 'file': 'batch_maker.rs', 'fn': 'seal', 'line': _sl, 'rust': ' '.join(t.split()), 'coq': guarded, 'changed': guarded != 'true'})
+else:
+    untied.append(('g_seal_index_guarded', 'site not found'))
+    defs.append("(* UNTIED g_seal_index_guarded *)\nDefinition g_seal_index_guarded : bool := true.")
+    sites.append({'name': 'g_seal_index_guarded', 'file': 'batch_maker.rs', 'fn': 'seal', 'line': _sl, 'rust': None, 'coq': 'true', 'untied': 'site not found'})
+
+
+# ---- crypto: do the key decoders check the decoded length exactly, or slice a prefix (panics when short, truncates when long)? ----
+crypto_src = strip_comments(open(REPO + '/crypto/src/lib.rs').read())
+for nm, ty in (('g_pk_decode_exact', 'PublicKey'), ('g_sk_decode_exact', 'SecretKey')):
+    ib, il = impl_body(crypto_src, ty)
+    body, line = fn_body(ib, 'decode_base64') if ib else (None, 0)
+    if body and 'try_into' in body or (body and 'try_from' in body):
+        m = re.search(r'bytes\s*\[\s*\.\.\s*\d+\s*\]', body)
+        v = 'false' if m else 'true'
+        defs.append("(* crypto/src/lib.rs: impl %s, fn decode_base64 (line %d): %s *)\nDefinition %s : bool := %s." % (ty, il + line - 1, ('prefix slice `%s`' % m.group(0)) if m else 'whole-slice conversion (exact length)', nm, v))
+        sites.append({'name': nm, 'file': 'crypto/src/lib.rs', 'fn': '%s::decode_base64' % ty, 'line': il + line - 1, 'rust': m.group(0) if m else 'exact', 'coq': v, 'changed': v != 'true'})
+    else:
+        untied.append((nm, 'site not found'))
+        defs.append("(* UNTIED %s *)\nDefinition %s : bool := true." % (nm, nm))
+        sites.append({'name': nm, 'file': 'crypto/src/lib.rs', 'fn': '%s::decode_base64' % ty, 'line': 0, 'rust': None, 'coq': 'true', 'untied': 'site not found'})
+
 # ---- commit(): the deque discipline, read off the source (which end each push/pop uses, whether the head is
 # pushed before or after the walk, and the optional stop test inside the walk) ----
 def flag(name, fn, pattern, mapping, default, what):
